@@ -242,6 +242,7 @@ func doReplay(file string, verbose bool) int {
 		fmt.Fprintln(os.Stderr, err)
 		return 2
 	}
+	debugOracle = verbose
 	ch := &ssim.Replay{Dec: rp.Decisions}
 	x := execute(&rp.Scenario, ch, verbose)
 	res := analyse(x)
